@@ -11,7 +11,9 @@
               (GenericTuple.Names / getBucket / TupleOrderedNames, positionalRelation.getMeta,
                syntax.FixFuncs / StdScope / SafeStdScope / implicitDecoder, deprecate.delayDuration)
     Keyed     Lock; lookup; on a miss compute *while holding the lock*; store; Unlock
-              (positionalRelationMetadata.computeIndex, syntax.mustReadEmbeddedFile, stdOsStdin.read)
+              (positionalRelationMetadata.computeIndex, syntax.mustReadEmbeddedFile)
+    Stream    the same over a consuming resource (stdOsStdin.read drains a reader), with the narrowed-lock
+              variant as a parameter
     GetOrAdd  importCache.getOrAdd: mutex + condition variable, in-flight marker, deferred clean-up
     Seen      deprecate.sourceContextCache.encountered: RWMutex, test under RLock then set under Lock
 
@@ -132,6 +134,62 @@ def run {α : Type} (f : Nat → α) (key : Nat → Nat) (sched : List Nat) (s :
   sched.foldl (step f key) s
 
 end Keyed
+
+/-! ## compute-and-store over a *consuming* resource: stdin's read-once
+
+```go
+func (d *stdOsStdin) read(context.Context, rel.Value) (rel.Value, error) {
+	d.mutex.Lock(); defer d.mutex.Unlock()
+	if d.bytes != nil { return d.bytes, nil }
+	f, err := io.ReadAll(stdOsStdinVar.reader)     // many Read calls, each consumes what has arrived
+	if err != nil { return nil, err }
+	d.bytes = rel.NewBytes(f)
+	return d.bytes, nil
+}
+```
+Unlike `fn()` of the keyed cache the computation is not repeatable: what one caller reads is gone for the others.
+`held = true` is the code above (the mutex spans ReadAll).  `held = false` is the narrowed variant — lock, fetch
+(cache, reader), unlock, drain, re-lock, store if nobody has stored yet — in which every field access is still
+locked (no data race, nothing for the race detector) but two first callers drain the same stream. -/
+namespace Stream
+
+inductive PC where
+  | lock | look | drain | relock | store | unlock | fin
+  deriving DecidableEq, Repr
+
+structure St where
+  mu : Option Nat := none
+  cache : Option (List Nat) := none       -- d.bytes
+  src : List (List Nat) := []             -- the chunks the reader has not delivered yet; [] = EOF
+  runs : Nat := 0                          -- ghost: callers that started to drain the reader
+  pc : Nat → PC := fun _ => .lock
+  acc : Nat → List Nat := fun _ => []     -- ReadAll's buffer
+  tmp : Nat → Option (List Nat) := fun _ => none
+  res : Nat → Option (List Nat) := fun _ => none
+
+def init (chunks : List (List Nat)) : St := { src := chunks }
+
+def step (held : Bool) (s : St) (t : Nat) : St :=
+  match s.pc t with
+  | .lock => if s.mu = none then { s with mu := some t, pc := upd s.pc t .look } else s
+  | .look =>
+    match s.cache with
+    | some x => { s with tmp := upd s.tmp t (some x), pc := upd s.pc t .unlock }
+    | none => { s with mu := (if held then s.mu else none), runs := s.runs + 1, pc := upd s.pc t .drain }
+  | .drain =>
+    match s.src with
+    | c :: rest => { s with src := rest, acc := upd s.acc t (s.acc t ++ c) }      -- one Read
+    | [] => { s with pc := upd s.pc t (if held then .store else .relock) }        -- EOF
+  | .relock => if s.mu = none then { s with mu := some t, pc := upd s.pc t .store } else s
+  | .store =>
+    { s with cache := (match s.cache with | none => some (s.acc t) | c => c),
+             tmp := upd s.tmp t (some (s.acc t)), pc := upd s.pc t .unlock }
+  | .unlock => { s with mu := none, res := upd s.res t (s.tmp t), pc := upd s.pc t .fin }
+  | .fin => s
+
+def run (held : Bool) (sched : List Nat) (s : St) : St := sched.foldl (step held) s
+
+end Stream
 
 /-! ## importCache.getOrAdd
 
